@@ -1,4 +1,4 @@
-import ProductMD.Proofs.ForestQuery
+import ProductMD.Proofs.ForestUnique
 /-!
 # C11 — the variant forest stays consistent and every variant is findable
 
@@ -158,6 +158,32 @@ theorem C11_get_variants_strict_partial (U : Nat → Attrs) (s : State) (fuel : 
     intro a b hab
     exact Std.lt_of_le_of_ne hab.1 hab.2
   · exact nodup_of_map _ hd
+
+/-- On a variant – any depth, any filter, with or without `'self'`, after ANY history: strictly increasing UIDs, each
+variant at most once.  No hypothesis about UIDs: below a variant their distinctness FOLLOWS from `InvW` (alignment,
+dash-free ids, distinct keys; `siblings_apart`). -/
+theorem C11_get_variants_strict_below (U : Nat → Attrs) (s : State) (h : InvW U s) (fuel : Nat) (p : Nat)
+    (arch : Option Str) (types : List Str) (recursive : Bool) (res : List Nat)
+    (hr : getVariants U s fuel (some p) arch types recursive = .ok res) :
+    res.Pairwise (fun a b => (U a).uid < (U b).uid) ∧ res.Nodup :=
+  C11_get_variants_strict_partial U s fuel (some p) arch types recursive res hr (gv_unique h fuel p arch types recursive res hr)
+
+/-- On the top-level container the same needs the subtrees of different top-level entries to have different UIDs
+(`TopApart`) – exactly what F14 violates and `add` does not enforce. -/
+theorem C11_get_variants_strict_top_partial (U : Nat → Attrs) (s : State) (h : InvW U s) (hsep : TopApart U s)
+    (fuel : Nat) (arch : Option Str) (types : List Str) (recursive : Bool) (res : List Nat)
+    (hr : getVariants U s fuel none arch types recursive = .ok res) :
+    res.Pairwise (fun a b => (U a).uid < (U b).uid) ∧ res.Nodup :=
+  C11_get_variants_strict_partial U s fuel none arch types recursive res hr (gv_unique_top h hsep fuel arch types recursive res hr)
+
+/-- …and `TopApart` is a consequence of the full `Inv` when no top-level UID is dashed: for forests built from fresh
+objects without the 'Server-optional' style of top-level UID, "at most once, strictly ordered" holds outright. -/
+theorem C11_get_variants_strict_dashless_partial (U : Nat → Attrs) (s : State) (h : Inv U s)
+    (hnd : ∀ kv ∈ s.top, '-' ∉ (U kv.2).uid)
+    (fuel : Nat) (arch : Option Str) (types : List Str) (recursive : Bool) (res : List Nat)
+    (hr : getVariants U s fuel none arch types recursive = .ok res) :
+    res.Pairwise (fun a b => (U a).uid < (U b).uid) ∧ res.Nodup :=
+  C11_get_variants_strict_top_partial U s h.weak (topApart_of_dashless h hnd) fuel arch types recursive res hr
 
 /-- Everything returned is a variant below the container that passes BOTH filters (arch: the requested arch is in
 `arches`, or it is `'src'`, or there is no arch filter; type: one of the requested types, or no type filter) – except
@@ -373,6 +399,13 @@ example : ((([0, 1, 2] : List Nat).map fun x => (Uex x).uid).Nodup)
     ∧ resOf (getVariants Uex sEx 50 none none [] true) = some [0, 1, 2]
     ∧ resOf (getVariants Uex sEx 50 none (some "i386".toList) [] true) = some [0]
     ∧ resOf (getVariants Uex sEx 50 none (some srcA) ["variant".toList] true) = some [0, 1, 2] := by decide +kernel
+
+/-- the hypotheses of `C11_get_variants_strict_dashless_partial` (hence `TopApart`) hold on the example -/
+example : ∀ kv ∈ sEx.top, '-' ∉ (Uex kv.2).uid := by
+  intro kv hkv; simp [sEx] at hkv; subst hkv; decide +kernel
+example (res : List Nat) (hr : getVariants Uex sEx 50 none (some srcA) [] true = .ok res) : res.Nodup :=
+  (C11_get_variants_strict_dashless_partial Uex sEx ex_inv
+    (by intro kv hkv; simp [sEx] at hkv; subst hkv; decide +kernel) 50 _ _ _ res hr).2
 
 /-- `C11_refused` is not vacuous: the refused call of the example changed the parent pointer only -/
 example : (add Uex 50 sEx2 (some 0) 3 none).1.kids = sEx2.kids ∧ (add Uex 50 sEx2 (some 0) 3 none).1.top = sEx2.top :=
